@@ -1486,6 +1486,16 @@ class BuiltinMixin:
     def b_contextlib_suppress(self, st, args, kwargs):
         return [(st, VConst(("suppress", tuple(args))))]
 
+    def m_const_get(self, st, cv, args, kwargs):
+        """<module-level dict literal keyed by classes>.get(cls[, default])"""
+        if isinstance(cv, VConst) and isinstance(cv.py, tuple) and cv.py and cv.py[0] == "global" and isinstance(args[0], (VClass, VExcClass)):
+            mod = load.get_module(cv.py[1])
+            lit = mod.consts.get(cv.py[2])
+            if isinstance(lit, ast.Dict):
+                hit = self.class_table_lookup(mod, lit, args[0])
+                return [(st, hit if hit is not None else (args[1] if len(args) > 1 else NONE))]
+        raise Unsupported(f"method const.get on {cv!r}")
+
     def b_asyncio_get_running_loop(self, st, args, kwargs):
         return [(st, VConst(("asyncio-loop",)))]
 
